@@ -63,23 +63,29 @@ pub open spec fn mode_of(st: KeyStatus, e: Endpoint) -> Seq<char> {
 /// "each endpoint is intercepted exactly when its mode is not disabled"
 pub open spec fn intercepted(st: KeyStatus, e: Endpoint) -> bool { mode_of(st, e) != "disabled"@ }
 
-/// the word the 2.0 channel-state text uses for a mode
-pub open spec fn mode_word(m: Seq<char>) -> Seq<char> {
-    if m == "enforce"@ { "Enforce"@ } else if m == "audit"@ { "Audit"@ } else { "Disabled"@ }
+/// the three phrases of the 2.0 channel-state text, by mode (anything that is neither enforce nor audit reads Disabled)
+pub open spec fn ws_phrase(m: Seq<char>) -> Seq<char> {
+    if m == "enforce"@ { "WireServer Enforce"@ } else if m == "audit"@ { "WireServer Audit"@ } else { "WireServer Disabled"@ }
+}
+pub open spec fn imds_phrase(m: Seq<char>) -> Seq<char> {
+    if m == "enforce"@ { " IMDS Enforce"@ } else if m == "audit"@ { " IMDS Audit"@ } else { " IMDS Disabled"@ }
+}
+pub open spec fn hostga_phrase(m: Seq<char>) -> Seq<char> {
+    if m == "enforce"@ { "HostGA Enforce"@ } else if m == "audit"@ { "HostGA Audit"@ } else { "HostGA Disabled"@ }
 }
 /// REPORTED CHANNEL STATE:
 ///  2.0: "disabled" unless secureChannelEnabled == true and the document carries authorizationRules; then the text
-///       "WireServer <W> -  IMDS <I> - HostGA <W>" with <W>/<I> the mode words of wireserver / imds
+///       "<wireserver phrase> - <imds phrase> - <hostga phrase>", HostGA following the wireserver mode (short-term rule)
 ///  1.0: the lower-cased secureChannelState, "disabled" when absent
 pub open spec fn sc_state(st: KeyStatus) -> Seq<char> {
     if is_v2(st) {
         if st.secureChannelEnabled == Some(true) && st.authorizationRules is Some {
-            v2_state_text(mode_word(v2_mode(doc_rules(st, Endpoint::WireServer))), mode_word(v2_mode(doc_rules(st, Endpoint::Imds))))
+            v2_state_text(mode_of(st, Endpoint::WireServer), mode_of(st, Endpoint::Imds), mode_of(st, Endpoint::HostGA))
         } else { "disabled"@ }
     } else { v1_state(st) }
 }
-pub open spec fn v2_state_text(w: Seq<char>, i: Seq<char>) -> Seq<char> {
-    "WireServer "@ + w + " - "@ + " IMDS "@ + i + " - "@ + "HostGA "@ + w
+pub open spec fn v2_state_text(w: Seq<char>, i: Seq<char>, h: Seq<char>) -> Seq<char> {
+    ws_phrase(w) + " - "@ + imds_phrase(i) + " - "@ + hostga_phrase(h)
 }
 pub open spec fn channel_disabled(st: KeyStatus) -> bool { sc_state(st) == "disabled"@ }
 
